@@ -22,11 +22,12 @@ pub mod fuzzbody {
         let sel = data[0];
         let rest = &data[1..];
         let n = if sel & 1 == 0 { 512 } else { 1024 };
-        match (sel >> 1) % 5 {
-            0 => public_key(n, rest),
-            1 => secret_key(n, rest),
-            2 => signature(n, rest),
-            3 => {
+        // secret keys cost a millisecond each (tree construction): one selector value in eight
+        match (sel >> 1) % 8 {
+            0 | 1 => public_key(n, rest),
+            2 => secret_key(n, rest),
+            3 => signature(n, rest),
+            4 | 5 | 6 => {
                 // a body under a valid header and salt, through from_bytes and verify
                 let p = params(n);
                 let mut sig = vec![keys::native_sig_header(n)];
